@@ -2030,3 +2030,219 @@ Proof.
 Qed.
 
 End PrefixAtomic.
+
+(* ------------------------------------------------------------------------------------------ *)
+(* 14. R4 for a loop that ends a nested group: pruning                                           *)
+(* ------------------------------------------------------------------------------------------ *)
+
+Section Prune.
+Variable e : env.
+Notation evals := (rw_evals e).
+
+Lemma drops_refl {A} (P : A -> Prop) l : drops P l l.
+Proof. induction l; constructor; assumption. Qed.
+
+Lemma drops_all {A} (P : A -> Prop) x l l' : Forall P x -> drops P l l' -> drops P (x ++ l) l'.
+Proof. induction 1; intros Hd; simpl; [exact Hd | apply drops_drop; auto]. Qed.
+
+Lemma drops_app {A} (P : A -> Prop) l1 l1' l2 l2' : drops P l1 l1' -> drops P l2 l2' -> drops P (l1 ++ l2) (l1' ++ l2').
+Proof. induction 1; intros H2; simpl; [exact H2 | apply drops_keep; auto | apply drops_drop; auto]. Qed.
+
+Lemma drops_concat {A} (P : A -> Prop) zs zs' : Forall2 (drops P) zs zs' -> drops P (concat zs) (concat zs').
+Proof. induction 1; simpl; [constructor | apply drops_app; assumption]. Qed.
+
+Lemma drops_mono {A} (P Q : A -> Prop) l l' : (forall a, P a -> Q a) -> drops P l l' -> drops Q l l'.
+Proof. intros H. induction 1; constructor; auto. Qed.
+
+Lemma drops_flat_map {A} (P : A -> Prop) (k : A -> list A) l l' :
+  (forall a, P a -> Forall P (k a)) -> drops P l l' -> drops P (flat_map k l) (flat_map k l').
+Proof.
+  intros Hk. induction 1; simpl; [constructor | apply drops_app; [apply drops_refl | assumption] |].
+  apply drops_all; [apply Hk; assumption | assumption].
+Qed.
+
+Notation prunes := (rw_prunes e).
+
+Lemma prunes_refl (P : st -> Prop) t : prunes P t t.
+Proof. split; intros s l H; exists l; split; [exact H | apply drops_refl | exact H | apply drops_refl]. Qed.
+
+Lemma prunes_mono (P Q : st -> Prop) t t' : (forall s, P s -> Q s) -> prunes P t t' -> prunes Q t t'.
+Proof.
+  intros HPQ [H1 H2]. split; intros s l H.
+  - destruct (H1 _ _ H) as (l' & Hl' & Hd). exists l'. split; [exact Hl' | eapply drops_mono; eassumption].
+  - destruct (H2 _ _ H) as (l' & Hl' & Hd). exists l'. split; [exact Hl' | eapply drops_mono; eassumption].
+Qed.
+
+(* base: a loop (greedy or lazy) and its atomic greedy form *)
+Lemma prunes_loop (P : st -> Prop) k l o c m n : 0 <= m -> (forall s, next_in e k o c s -> P s) ->
+  prunes P (NCharLoop k l o c m n) (NCharLoop k LAtomic o c m n).
+Proof.
+  intros Hm HP.
+  assert (Hd : forall s, drops P (sem_charloop e k l o c m n s) (sem_charloop e k LAtomic o c m n s)).
+  { intros s. rewrite !sem_charloop_unfold. cbv zeta. set (r := loop_run e k o c n s).
+    destruct (r <? m) eqn:E; [constructor|].
+    assert (Hearly : forall j, m <= j <= r - 1 -> P (loop_state o s j)).
+    { intros j Hj. apply HP. apply (early_next_in e k o c m n s j Hm). fold r. lia. }
+    destruct l.
+    - rewrite (count_down_cons r m) by lia. cbn [map]. apply drops_keep.
+      rewrite <- (app_nil_r (map _ _)). apply drops_all; [|constructor].
+      apply Forall_forall. intros a Ha. apply in_map_iff in Ha as (j & <- & Hj). apply count_down_in in Hj. apply Hearly. lia.
+    - rewrite (count_up_snoc m r) by lia. rewrite map_app. cbn [map]. apply drops_all; [|apply drops_refl].
+      apply Forall_forall. intros a Ha. apply in_map_iff in Ha as (j & <- & Hj). apply count_up_in in Hj. apply Hearly. lia.
+    - apply drops_refl. }
+  split; intros s z Hz; leaf_inv Hz; subst z; eexists; (split; [leaf_intro; reflexivity | apply Hd]).
+Qed.
+
+Lemma prunes_capture (P : st -> Prop) o g u t t' : pos_pred P -> prunes P t t' -> prunes P (NCapture o g u t) (NCapture o g u t').
+Proof.
+  intros HP [H1 H2].
+  assert (Hk : forall s a, P a -> Forall P (capture_close g u s a)).
+  { intros s a Ha. unfold capture_close. destruct (u =? -1).
+    - constructor; [|constructor]. eapply HP; [|exact Ha]. reflexivity.
+    - destruct (cap_get u (caps a)); constructor; [|constructor]. eapply HP; [|exact Ha]. reflexivity. }
+  split; intros s z Hz; apply evals_capture in Hz as (l & Hl & ->).
+  - destruct (H1 _ _ Hl) as (l' & Hl' & Hd). eexists. split; [apply evals_capture; eauto|].
+    apply drops_flat_map; [apply Hk | exact Hd].
+  - destruct (H2 _ _ Hl) as (l' & Hl' & Hd). eexists. split; [apply evals_capture; eauto|].
+    apply drops_flat_map; [apply Hk | exact Hd].
+Qed.
+
+Lemma prunes_group (P : st -> Prop) t t' : prunes P t t' -> prunes P (NGroup t) (NGroup t').
+Proof.
+  intros [H1 H2]. split; intros s z Hz; apply (proj1 (evals_group _ _ _ _)) in Hz.
+  - destruct (H1 _ _ Hz) as (l' & Hl' & Hd). exists l'. split; [apply (proj2 (evals_group _ _ _ _)), Hl' | exact Hd].
+  - destruct (H2 _ _ Hz) as (l' & Hl' & Hd). exists l'. split; [apply (proj2 (evals_group _ _ _ _)), Hl' | exact Hd].
+Qed.
+
+Lemma prunes_concat_last (P : st -> Prop) o pre t t' : prunes P t t' -> prunes P (NConcat o (pre ++ [t])) (NConcat o (pre ++ [t'])).
+Proof.
+  intros [H1 H2].
+  assert (Hnil : forall l zs, Forall2 (fun a za => evals (NConcat o []) a za) l zs -> concat zs = l).
+  { induction 1 as [|a za l0 zs0 Ha _ IH0]; [reflexivity|]. apply evals_concat_nil in Ha. subst. simpl. congruence. }
+  assert (Hsingle : forall x s z, evals (NConcat o [x]) s z <-> evals x s z).
+  { intros x s z. split; intros H; [apply (proj1 (concat_singleton e o x)) | apply (proj2 (concat_singleton e o x))]; exact H. }
+  induction pre as [|x pre [IH1 IH2]]; cbn [app].
+  - split; intros s z Hz; apply (proj1 (Hsingle _ _ _)) in Hz.
+    + destruct (H1 _ _ Hz) as (l' & Hl' & Hd). exists l'. split; [apply (proj2 (Hsingle _ _ _)), Hl' | exact Hd].
+    + destruct (H2 _ _ Hz) as (l' & Hl' & Hd). exists l'. split; [apply (proj2 (Hsingle _ _ _)), Hl' | exact Hd].
+  - split; intros s z Hz; apply evals_concat_cons in Hz as (lx & zs & Hx & HF & ->).
+    + destruct (Forall2_exists _ (fun a za => evals (NConcat o (pre ++ [t'])) a za) (drops P) _ _
+                  (fun a z Hz => IH1 a z Hz) HF) as (zs' & HF' & HR).
+      exists (concat zs'). split; [apply evals_concat_cons; eauto | apply drops_concat, HR].
+    + destruct (Forall2_exists _ (fun a za => evals (NConcat o (pre ++ [t])) a za) (fun z' z => drops P z z') _ _
+                  (fun a z Hz => IH2 a z Hz) HF) as (zs' & HF' & HR).
+      exists (concat zs'). split; [apply evals_concat_cons; eauto|]. apply drops_concat.
+      clear -HR. induction HR; constructor; assumption.
+Qed.
+
+Lemma prunes_alt (P : st -> Prop) o l l' : Forall2 (prunes P) l l' -> prunes P (NAlternate o l) (NAlternate o l').
+Proof.
+  induction 1 as [|x x' l l' [Hx1 Hx2] _ [IH1 IH2]]; [apply prunes_refl|].
+  split; intros s z Hz; apply evals_alt_cons in Hz as (lx & ly & Hlx & Hly & ->).
+  - destruct (Hx1 _ _ Hlx) as (lx' & Hlx' & Dx). destruct (IH1 _ _ Hly) as (ly' & Hly' & Dy).
+    exists (lx' ++ ly'). split; [apply evals_alt_cons; eauto | apply drops_app; assumption].
+  - destruct (Hx2 _ _ Hlx) as (lx' & Hlx' & Dx). destruct (IH2 _ _ Hly) as (ly' & Hly' & Dy).
+    exists (lx' ++ ly'). split; [apply evals_alt_cons; eauto | apply drops_app; assumption].
+Qed.
+
+Definition opt_prunes (P : st -> Prop) (n n' : option node) : Prop :=
+  match n, n' with Some a, Some b => prunes P a b | None, None => True | _, _ => False end.
+
+Lemma prunes_backref_cond (P : st -> Prop) o g y y' n n' : prunes P y y' -> opt_prunes P n n' ->
+  prunes P (NBackRefCond o g y n) (NBackRefCond o g y' n').
+Proof.
+  intros [Y1 Y2] Hn. split; intros s z Hz; apply evals_backref_cond in Hz; destruct (is_matched g (caps s)) eqn:E.
+  - destruct (Y1 _ _ Hz) as (z' & Hz' & D). exists z'. split; [apply evals_backref_cond; rewrite E; exact Hz' | exact D].
+  - destruct n as [a|], n' as [b|]; cbn [opt_prunes] in Hn; try contradiction.
+    + destruct (proj1 Hn _ _ Hz) as (z' & Hz' & D). exists z'. split; [apply evals_backref_cond; rewrite E; exact Hz' | exact D].
+    + exists z. split; [apply evals_backref_cond; rewrite E; exact Hz | apply drops_refl].
+  - destruct (Y2 _ _ Hz) as (z' & Hz' & D). exists z'. split; [apply evals_backref_cond; rewrite E; exact Hz' | exact D].
+  - destruct n as [a|], n' as [b|]; cbn [opt_prunes] in Hn; try contradiction.
+    + destruct (proj2 Hn _ _ Hz) as (z' & Hz' & D). exists z'. split; [apply evals_backref_cond; rewrite E; exact Hz' | exact D].
+    + exists z. split; [apply evals_backref_cond; rewrite E; exact Hz | apply drops_refl].
+Qed.
+
+Lemma prunes_expr_cond (P : st -> Prop) o c y y' n n' : prunes P y y' -> opt_prunes P n n' ->
+  prunes P (NExprCond o c y n) (NExprCond o c y' n').
+Proof.
+  intros [Y1 Y2] Hn. split; intros s z Hz; apply evals_expr_cond in Hz as (lc & Hc & Hz); destruct lc as [|a lc].
+  - destruct n as [b|], n' as [b'|]; cbn [opt_prunes] in Hn; try contradiction.
+    + destruct (proj1 Hn _ _ Hz) as (z' & Hz' & D). exists z'. split; [apply evals_expr_cond; exists []; auto | exact D].
+    + exists z. split; [apply evals_expr_cond; exists []; auto | apply drops_refl].
+  - destruct (Y1 _ _ Hz) as (z' & Hz' & D). exists z'. split; [apply evals_expr_cond; exists (a :: lc); auto | exact D].
+  - destruct n as [b|], n' as [b'|]; cbn [opt_prunes] in Hn; try contradiction.
+    + destruct (proj2 Hn _ _ Hz) as (z' & Hz' & D). exists z'. split; [apply evals_expr_cond; exists []; auto | exact D].
+    + exists z. split; [apply evals_expr_cond; exists []; auto | apply drops_refl].
+  - destruct (Y2 _ _ Hz) as (z' & Hz' & D). exists z'. split; [apply evals_expr_cond; exists (a :: lc); auto | exact D].
+Qed.
+
+(* use: in front of a continuation that is dead at every P-state, pruning is invisible *)
+Theorem prunes_then_dead (P : st -> Prop) o t t' rest : prunes P t t' -> (forall s, P s -> rw_seq_fails e rest s) ->
+  rw_eq e (NConcat o (t :: rest)) (NConcat o (t' :: rest)).
+Proof.
+  intros [H1 H2] Hdead.
+  assert (Hd : forall a, P a -> evals (NConcat o rest) a []) by (intros a Ha; apply seq_fails_evals, Hdead, Ha).
+  split; intros s z Hz; apply evals_concat_cons in Hz as (lx & zs & Hx & HF & ->); apply evals_concat_cons.
+  - destruct (H1 _ _ Hx) as (lx' & Hx' & D). exists lx'.
+    assert (Hz : exists zs', Forall2 (fun a za => evals (NConcat o rest) a za) lx' zs' /\ concat zs = concat zs').
+    { clear -D HF Hd. revert zs HF. induction D as [|a l l' D IH|a l l' Pa D IH]; intros zs HF; inversion HF as [|a' za l0 zs0 Ha HF0]; subst.
+      - exists []. split; [constructor | reflexivity].
+      - destruct (IH _ HF0) as (zs' & HF' & E). exists (za :: zs'). split; [constructor; assumption | simpl; congruence].
+      - destruct (IH _ HF0) as (zs' & HF' & E). exists zs'. split; [exact HF'|]. simpl.
+        rewrite (rw_evals_det e _ _ _ _ Ha (Hd a Pa)). exact E. }
+    destruct Hz as (zs' & HF' & E). exists zs'. auto.
+  - destruct (H2 _ _ Hx) as (lx' & Hx' & D). exists lx'.
+    assert (Hz : exists zs', Forall2 (fun a za => evals (NConcat o rest) a za) lx' zs' /\ concat zs = concat zs').
+    { clear -D HF Hd. revert zs HF. induction D as [|a l l' D IH|a l l' Pa D IH]; intros zs HF.
+      - inversion HF; subst. exists []. split; [constructor | reflexivity].
+      - inversion HF as [|a' za l0 zs0 Ha HF0]; subst.
+        destruct (IH _ HF0) as (zs' & HF' & E). exists (za :: zs'). split; [constructor; assumption | simpl; congruence].
+      - destruct (IH _ HF) as (zs' & HF' & E). exists ([] :: zs'). split; [constructor; [apply Hd, Pa | exact HF'] | exact E]. }
+    destruct Hz as (zs' & HF' & E). exists zs'. auto.
+Qed.
+
+End Prune.
+
+Scheme atomized_min := Minimality for atomized Sort Prop
+  with atomized_list_min := Minimality for atomized_list Sort Prop
+  with atomized_opt_min := Minimality for atomized_opt Sort Prop.
+Combined Scheme atomized_mutind from atomized_min, atomized_list_min, atomized_opt_min.
+
+Section Nested.
+Variable e : env.
+Variable P : st -> Prop.
+Hypothesis P_pos : pos_pred P.
+
+Theorem atomized_prunes_all :
+  (forall t t', atomized e P t t' -> rw_prunes e P t t') /\
+  (forall l l', atomized_list e P l l' -> Forall2 (rw_prunes e P) l l') /\
+  (forall n n', atomized_opt e P n n' -> opt_prunes e P n n').
+Proof.
+  apply (atomized_mutind e P (fun t t' => rw_prunes e P t t') (fun l l' => Forall2 (rw_prunes e P) l l')
+           (fun n n' => opt_prunes e P n n')).
+  - intros t. apply prunes_refl.
+  - intros k l o c m n Hm HP. apply prunes_loop; assumption.
+  - intros o g u t t' _ H. apply prunes_capture; assumption.
+  - intros t t' _ H. apply prunes_group, H.
+  - intros o pre t t' _ H. apply prunes_concat_last, H.
+  - intros o l l' _ H. apply prunes_alt, H.
+  - intros o g y y' n n' _ Hy _ Hn. apply prunes_backref_cond; assumption.
+  - intros o c y y' n n' _ Hy _ Hn. apply prunes_expr_cond; assumption.
+  - constructor.
+  - intros t t' l l' _ H _ Hl. constructor; assumption.
+  - exact I.
+  - intros t t' _ H. exact H.
+Qed.
+
+(* R4, nested: loops at the END of [t] (through captures, groups, last children of concatenations,
+   branches of alternations and conditionals) may all be made atomic when the continuation is dead at
+   every state whose next character passes one of those loops' tests *)
+Theorem auto_atomic_nested o pre t t' rest :
+  atomized e P t t' -> (forall s, P s -> rw_seq_fails e rest s) ->
+  rw_eq e (NConcat o (pre ++ t :: rest)) (NConcat o (pre ++ t' :: rest)).
+Proof.
+  intros Ha Hdead. destruct (prunes_then_dead e P o t t' rest (proj1 atomized_prunes_all _ _ Ha) Hdead) as [H1 H2].
+  split; apply concat_prefix_congr; assumption.
+Qed.
+
+End Nested.
